@@ -102,11 +102,16 @@ class TreeCfg:
         self.p_concept_is_var = 0.08
         self.p_colonless = 0.0     # role text without leading colon (hand-assembled trees)
         self.exotic_symbols = 0.1
+        self.p_forward = 0.3       # share of re-entrancies that may point forward
         self.p_pynum = 0.0         # numeric atoms as Python int/float objects (hand-assembled trees)
         self.__dict__.update(kw)
 
 
 NUMBERS = ['0', '1', '-1', '0.0', '3.14', '1e5', '-0', '007', '12', '2']
+
+
+MULTIKEY_HEADERS = ['# ::id doc.1 ::date 2020-01-01 ::annotator z\n', '# ::id 7  ::snt The dog barks.   ::lang en\n', '#::a 1::b 2\n',
+                    '# ::tok a b c ::alignments 0-1 1-2 \t ::k\n# plain comment\n', '# ::snt x ::id\n']
 
 
 def rand_meta(rng):
@@ -184,7 +189,8 @@ def random_tree(rng, cfg=None):
                     continue
                 branches.append((rl_a, build(nv, depth + 1)))
             elif x < 0.45 + cfg.p_reent and defined:
-                tgt = rng.choice(defined if cfg.wellformed else allvars)
+                # also forward references: a variable whose node is written later in the text
+                tgt = rng.choice(allvars if (not cfg.wellformed or rng.random() < cfg.p_forward) else defined)
                 if cfg.wellformed:
                     if tgt == var and inv:
                         continue
